@@ -216,6 +216,9 @@ func (g *Gen) Make(kind string) Op {
 		}
 	case KIncr:
 		o.Amt, o.Def, o.Exp = uint64(g.R.Intn(10)), uint64(g.R.Intn(100)), g.exp()
+		if g.R.Chance(1, 6) {
+			o.Def = 9223372036854775800 + uint64(g.R.Intn(16)) // counters around 2^63
+		}
 	case KTouch, KGetTouch:
 		o.Exp = g.exp()
 	case KSetX:
@@ -518,6 +521,8 @@ func Variants() []Op {
 		add(o)
 	}
 	add(Op{Kind: KIncr, Amt: 3, Def: 10})
+	add(Op{Kind: KIncr, Amt: 1, Def: 9223372036854775807}) // the counter is unsigned: 2^63-1, then 2^63, ...
+	add(Op{Kind: KIncr, Amt: 2, Def: 18446744073709551000})
 	add(Op{Kind: KIncr, Amt: 0, Def: 7, Exp: farExp + 11}) // "read the counter": still a write (creates it, sets the expiry, new CAS)
 	add(Op{Kind: KIncr, Amt: 1, Def: 0, Exp: farExp + 10})
 	add(Op{Kind: KTouch, Exp: farExp + 11})
